@@ -200,8 +200,10 @@ func runC17(c *Ctx) {
 
 	ruleGates(c, p, pairs, "C17.gates")
 	ruleBitFlags(c, p, pairs, "C17.flags")
+	ruleLossyDecode(c, p, pairs, "C17.lossy")
 	ruleThresholds(c, p, "C17.thresholds")
 	ruleFreshTargets(c, p, "C17.fresh")
+	ruleScratchAlias(c, p, "C17.scratch")
 
 	// ---- C17.fieldorder
 	rule = "C17.fieldorder"
@@ -886,7 +888,7 @@ func ruleThresholds(c *Ctx, p *core.Program, rule string) {
 
 // ruleFreshTargets (C17.fresh): a decode target used in a loop is a new zero value each round.
 func ruleFreshTargets(c *Ctx, p *core.Program, rule string) {
-	c.R.Rule(rule, "in the library's decode loops (proto, ch) a local struct that receives a Decode / DecodeAware call inside a loop is declared inside that loop (a fresh zero value per iteration): element decoders may return early without touching their receiver (Setting.Decode on the empty terminator key), so a target declared outside the loop keeps the previous element's fields and the end-of-list test never fires")
+	c.R.Rule(rule, "in the library's decode loops (proto, ch) a local struct that receives a Decode / DecodeAware / Infer / DecodeColumn / DecodeState call inside a loop is declared inside that loop (a fresh zero value per iteration): element decoders may return early without touching their receiver (Setting.Decode on the empty terminator key), so a target declared outside the loop keeps the previous element's fields and the end-of-list test never fires")
 	cfg := p.Cfg.Name
 	n := 0
 	for _, fn := range p.Funcs() {
@@ -896,7 +898,12 @@ func ruleFreshTargets(c *Ctx, p *core.Program, rule string) {
 		k := 0
 		for _, call := range core.Calls(fn) {
 			f := core.CalleeFunc(call)
-			if f == nil || (f.Name() != "Decode" && f.Name() != "DecodeAware") || !core.InLoop(call.(ssa.Instruction)) {
+			if f == nil || !core.InLoop(call.(ssa.Instruction)) {
+				continue
+			}
+			switch f.Name() {
+			case "Decode", "DecodeAware", "Infer", "DecodeColumn", "DecodeState":
+			default:
 				continue
 			}
 			args := call.Common().Args
@@ -937,27 +944,107 @@ func ruleFreshTargets(c *Ctx, p *core.Program, rule string) {
 			untouched := true
 			if g := core.StaticFn(call); g != nil && g.Blocks != nil && len(g.Params) > 0 {
 				rp := g.Params[0]
-				hits := core.ReachAvoiding(core.Entry(g), func(x ssa.Instruction) bool {
-					ret, ok := x.(*ssa.Return)
-					return ok && x.Block().Comment != "recover" && defaultSuccess(g, ret)
-				}, func(x ssa.Instruction) bool {
-					st, ok := x.(*ssa.Store)
-					if !ok {
-						return false
+				// the fields of the target that the loop reads: each must be written by the
+				// decoder on every success path
+				fields := map[int]bool{}
+				for _, r := range *al.Referrers() {
+					if fa, ok := r.(*ssa.FieldAddr); ok && core.InLoop(fa) {
+						for _, r2 := range *fa.Referrers() {
+							if u, ok := r2.(*ssa.UnOp); ok && u.Op == token.MUL {
+								fields[fa.Field] = true
+							}
+						}
 					}
-					fa, ok := st.Addr.(*ssa.FieldAddr)
-					return ok && fa.X == ssa.Value(rp) || st.Addr == ssa.Value(rp)
-				}, nil)
-				untouched = len(hits) > 0
+				}
+				untouched = false
+				if len(fields) == 0 {
+					fields[-1] = true // whole value used (copied / appended): any field counts
+				}
+				for fidx := range fields {
+					fidx := fidx
+					hits := core.ReachAvoiding(core.Entry(g), func(x ssa.Instruction) bool {
+						ret, ok := x.(*ssa.Return)
+						return ok && x.Block().Comment != "recover" && defaultSuccess(g, ret)
+					}, func(x ssa.Instruction) bool {
+						st, ok := x.(*ssa.Store)
+						if !ok {
+							return false
+						}
+						if st.Addr == ssa.Value(rp) {
+							return true
+						}
+						fa, ok := st.Addr.(*ssa.FieldAddr)
+						return ok && fa.X == ssa.Value(rp) && (fidx < 0 || fa.Field == fidx)
+					}, nil)
+					if len(hits) > 0 {
+						untouched = true
+					}
+				}
 			}
 			if zeroed {
 				c.R.Ok(rule, key, cfg, p.Pos(al.Pos()), "target zeroed at the top of each iteration")
 			} else if !untouched {
-				c.R.Ok(rule, key, cfg, p.Pos(al.Pos()), "target declared outside the loop, but its decoder writes it on every success path")
+				c.R.Ok(rule, key, cfg, p.Pos(al.Pos()), "target declared outside the loop, but its decoder writes every field the loop reads on every success path")
 			} else {
 				c.R.Bad(rule, key, cfg, p.Pos(al.Pos()), "the decode target "+al.Comment+" is declared outside the loop that decodes into it: fields an element decoder leaves untouched (early return on a terminator) keep the previous element's values, so the list never terminates / the last element repeats")
 			}
 		}
 	}
 	c.R.Floor(rule, cfg, n, 2)
+}
+
+// ruleLossyDecode (C17.lossy): message decoders keep what they read.
+func ruleLossyDecode(c *Ctx, p *core.Program, pairs []msgPair, rule string) {
+	c.R.Rule(rule, "in the message decoders, a value read from the wire is not narrowed by a constant bit mask before it is stored (v & K kept as a value; a mask used only in a comparison - flag extraction - is fine): the encoder writes the whole value, so masked-out bits do not survive decode(encode(x))")
+	cfg := p.Cfg.Name
+	rd := readerClass(p)
+	n := 0
+	for _, mp := range pairs {
+		fns := []*ssa.Function{mp.dec}
+		bad := false
+		for _, fn := range fns {
+			for _, b := range fn.Blocks {
+				for _, in := range b.Instrs {
+					and, ok := in.(*ssa.BinOp)
+					if !ok || and.Op != token.AND {
+						continue
+					}
+					var k ssa.Value = and.Y
+					v := and.X
+					if _, isC := k.(*ssa.Const); !isC {
+						k, v = and.X, and.Y
+					}
+					if _, isC := k.(*ssa.Const); !isC {
+						continue
+					}
+					fromWire := core.DependsOn(v, func(x ssa.Value) bool {
+						cl, ok := x.(*ssa.Call)
+						return ok && rd(fn, cl)
+					}, false)
+					if !fromWire || and.Referrers() == nil {
+						continue
+					}
+					n++
+					onlyCompared := true
+					for _, r := range *and.Referrers() {
+						if bo, ok := r.(*ssa.BinOp); ok && (bo.Op == token.EQL || bo.Op == token.NEQ) {
+							continue
+						}
+						if _, isDbg := r.(*ssa.DebugRef); isDbg {
+							continue
+						}
+						onlyCompared = false
+					}
+					if !onlyCompared {
+						bad = true
+						c.R.Bad(rule, "lossy/"+mp.name, cfg, p.Pos(and.Pos()), "a value read from the wire is masked with a constant and the result kept: bits outside the mask that the encoder wrote are dropped, so the decoded message differs from the encoded one")
+					}
+				}
+			}
+		}
+		if !bad {
+			c.R.Ok(rule, "lossy/"+mp.name, cfg, p.Pos(mp.dec.Pos()), "no masked value kept").Trivial = true
+		}
+	}
+	c.R.Count("masks of wire values in message decoders", n)
 }
